@@ -1,7 +1,8 @@
-import Martian.Model.Config
+import Martian.Model.ConfigJson
 /-!
 Driver for C12. Ops:
   `post <tree>`                 → `ok <hasReq> <hasRes>` | `rej <unknown-modifier|invalid-scope|malformed>`
+  `postj <style> <json value>`  → the same, for a body given as a JSON value (`fromJSON`, then `servePOST`)
   `run <q|s> <message>`         → `t=<labels> e=<-|E<l>|M<l,…>>`
   `cond <q|s> <cond> <message>` → `1` | `0`            (one matcher on one message)
   `matchhost <host> <pattern>`  → `1` | `0`            (`martianurl.MatchHost`)
@@ -11,6 +12,7 @@ Tree tokens (prefix form):
   `F <scope> <agg> <n> child*n` | `P <scope> <n> (<prio> child)*n` | `C <cond> <scope> <hasElse> then [else]`
   scope: `n` (absent/null) | `e` (`[]`) | string over q (request) s (response) x (anything else)
   cond:  `m:<method>` | `u:<scheme>:<host>:<path>:<query>` | `q:<name>:<value>` | `h:<name>:<value>` | `c:<name>:<value>` (hex)
+  JSON value tokens (prefix form): `N` | `T` | `F` | `#<number literal>` | `S<hex>` | `A<n> value*n` | `O<n> (<hex key> value)*n`
   message: 14 `;`-separated fields: method;scheme;host;path;rawQuery;req.Host;req.ContentLength;req.TransferEncoding;
            request headers;request cookies;res.ContentLength;res.TransferEncoding;response headers;response cookies
            (byte strings hex; TE `n` = nil, `e` = empty, else `,`-list; headers/cookies `-` or `name:value,…` in Add order)
@@ -156,6 +158,78 @@ def parsePNodes : Nat → Nat → List String → Option (List (Int × Node) × 
     | [] => none
 end
 
+/-- number literal (already known to follow the JSON grammar) → sign, integer digits' value, fraction/exponent present -/
+def parseNumLit (s : String) : Option NumLit :=
+  let neg := s.startsWith "-"
+  let body : List Char := if neg then s.toList.drop 1 else s.toList
+  let ds := body.takeWhile Char.isDigit
+  if ds.isEmpty then none
+  else some ⟨neg, (String.ofList ds).toNat!, ds.length < body.length⟩
+
+mutual
+def parseJV : Nat → List String → Option (JVal × List String)
+  | 0, _ => none
+  | fuel + 1, toks =>
+    match toks with
+    | [] => none
+    | t :: rest =>
+      if t = "N" then some (.null, rest)
+      else if t = "T" then some (.bool true, rest)
+      else if t = "F" then some (.bool false, rest)
+      else if t.startsWith "#" then (parseNumLit (t.drop 1).toString).map fun n => (.num n, rest)
+      else if t.startsWith "S" then (unhex (t.drop 1).toString).map fun b => (.str b, rest)
+      else if t.startsWith "A" then
+        match (t.drop 1).toNat? with
+        | some n => (parseJVs fuel n rest).map fun r => (.arr r.1, r.2)
+        | none => none
+      else if t.startsWith "O" then
+        match (t.drop 1).toNat? with
+        | some n => (parseJKVs fuel n rest).map fun r => (.obj r.1, r.2)
+        | none => none
+      else none
+def parseJVs : Nat → Nat → List String → Option (List JVal × List String)
+  | 0, _, _ => none
+  | _ + 1, 0, toks => some ([], toks)
+  | fuel + 1, n + 1, toks =>
+    match parseJV fuel toks with
+    | some (v, rest) =>
+      match parseJVs fuel n rest with
+      | some (vs, rest) => some (v :: vs, rest)
+      | none => none
+    | none => none
+def parseJKVs : Nat → Nat → List String → Option (List (Bytes × JVal) × List String)
+  | 0, _, _ => none
+  | _ + 1, 0, toks => some ([], toks)
+  | fuel + 1, n + 1, toks =>
+    match toks with
+    | k :: toks =>
+      match unhex k, parseJV fuel toks with
+      | some k, some (v, rest) =>
+        match parseJKVs fuel n rest with
+        | some (kvs, rest) => some ((k, v) :: kvs, rest)
+        | none => none
+      | _, _ => none
+    | [] => none
+end
+
+/-- names registered in the harness process by the filter packages' siblings, outside the model -/
+def otherRegistered : List Bytes := ["header.Modifier", "header.RegexFilter", "header.Append", "header.Blacklist", "header.Copy", "header.Id",
+  "header.Verifier", "cookie.Modifier", "url.Modifier", "url.RegexFilter", "url.Verifier", "method.Verifier", "querystring.Modifier",
+  "querystring.Verifier"].map strBytes
+
+mutual
+def mentionsOther : JVal → Bool
+  | .arr xs => mentionsOtherL xs
+  | .obj kvs => mentionsOtherK kvs
+  | _ => false
+def mentionsOtherL : List JVal → Bool
+  | [] => false
+  | x :: xs => mentionsOther x || mentionsOtherL xs
+def mentionsOtherK : List (Bytes × JVal) → Bool
+  | [] => false
+  | (k, v) :: r => otherRegistered.contains k || mentionsOther v || mentionsOtherK r
+end
+
 def parseTree (toks : List String) : Option Node :=
   match parseNode (2 * toks.length + 2) toks with
   | some (n, []) => some n
@@ -187,6 +261,14 @@ def step (s : St) (toks : List String) : St × String :=
       match servePOST s n with
       | (s', .ok ()) => (s', s!"ok {b01 s'.req.isSome} {b01 s'.res.isSome}")
       | (s', .error e) => (s', s!"rej {showPErr e}")
+  | "postj" :: _style :: jtoks =>
+    match parseJV (2 * jtoks.length + 2) jtoks with
+    | some (j, []) =>
+      if mentionsOther j then (s, "out-of-model") else
+      match servePOSTJ s j with
+      | (s', .ok ()) => (s', s!"ok {b01 s'.req.isSome} {b01 s'.res.isSome}")
+      | (s', .error e) => (s', s!"rej {showPErr e}")
+    | _ => (s, "bad-op")
   | ["run", k, msg] =>
     match parseKind k, parseMsg msg with
     | some k, some m => (s, showOutcome (run s k m.toMsg))
